@@ -167,3 +167,27 @@ package platform
 //@   at call Errorf#1 assert #the-refusal-of-an-unknown-variant-is-a-platform-error arg1[0] == util.ErrPlatformError
 //@   at call! mergeVariant#1 assert #the-named-variant-is-merged-over-the-loaded-default recv == pd.Default && isnew(recv) && has(pd.Variants, variant) && arg0 == get(pd.Variants, variant)
 //@   at call! setDriver#1 assert #the-driver-is-built-from-the-merged-section arg1 == pd.Default && arg0 == host && arg2 === opts
+
+// ---- C06 / C17: a platform hook runs its steps in order and stops at the first step that fails, with that step's error ----
+// stepErr: ghost - the error the step call of the current iteration returned (nil at the top of every iteration)
+//@ ghost stepErr error
+//@ func (*onXDefinitions).asNetworkOnX$1 [C06 C17]
+//@   maypanic
+//@   requires d.Channel != nil && RI(d.Channel.Q) && d.Channel.PromptSearchDepth >= 0 && d.DefaultDesiredPriv != ""
+//@   loop 1 invariant RI(d.Channel.Q) && rangeindex < len(val(o))
+//@   loop 1 set stepErr = nil
+//@   after call channelWrite#1 set stepErr = result
+//@   after call WriteReturn#1 set stepErr = result
+//@   after call AcquirePriv#1 set stepErr = result
+//@   after call SendCommand#1 set stepErr = result.1
+//@   loop 1 continue #the-next-step-runs-only-after-a-step-without-error stepErr == nil
+//@   at return assert #a-failing-step-ends-the-sequence-with-its-error stepErr != nil ==> result == stepErr
+//@ func (*onXDefinitions).asGenericOnX$1 [C06 C17]
+//@   maypanic
+//@   requires d.Channel != nil && RI(d.Channel.Q)
+//@   loop 1 invariant RI(d.Channel.Q) && rangeindex < len(val(o))
+//@   loop 1 set stepErr = nil
+//@   after call channelWrite#1 set stepErr = result
+//@   after call WriteReturn#1 set stepErr = result
+//@   loop 1 continue #the-next-step-runs-only-after-a-step-without-error stepErr == nil
+//@   at return assert #a-failing-step-ends-the-sequence-with-its-error stepErr != nil ==> result == stepErr
